@@ -34,6 +34,11 @@ CHECKS = {
    text="RX: the live SCHEMA_NAME_PATTERN (under .match semantics) and the frozen@sha256 reference pattern admit no '/', '\\', '.', NUL and exactly 64 hex digits, for strings of any length. XH: the three path validators, atomic_write_octave, WriteTool.execute, ValidateTool.execute(file_path) and validate_source_uri run under CrossHair over a model tree (symlinks to an outside directory and file, dangling file and directory symlinks, secrets outside the sandbox root) on paths assembled by symbolic index from 7 intermediate x 7 x 12 final segment kinds, absolute and relative: a '..' component, a symlink component (incl. last, incl. dangling) or a bad extension must be refused before any open/read/mkstemp/replace/unlink/mkdir, and no operation may touch a path resolving outside the root. resolve_hermetic_standard returns a path only when the (stubbed) content hash equals the digest.",
    note="Trusted: file-system model's symlink resolution; segment pools are finite (solver-chosen), NUL and over-long names and the macOS /private carve-out are outside the model; CLI wrappers call the same validators.",
    ref="DESIGN.md §4 C19"),
+ "C11": dict(
+   technique="CrossHair symbolic execution of the real repair functions (value level, tree walk, tool copy of the log) against the property's clauses",
+   text="repair_value/_attempt_enum_casefold/_attempt_type_coercion run under CrossHair for each of six chain shapes on symbolic values (str <= 2 chars, any int, bool, None, literal zone, list), symbolic fix flag and ENUM lists whose unique/ambiguous/no-match cases are all reachable; numeric texts come from a 30-entry solver-indexed pool covering every notation named in the property (sign, leading zeros, underscores, padding, exponent, overflow to inf, nan/inf spellings, hex, non-ASCII digits). repair()/_repair_ast_node run on documents with keys chosen by symbolic index at four nesting depths: skeleton, META and unnamed values unchanged, one REPAIR-tier log entry per change with exact before/after, new value satisfies the motivating constraint, second repair is a no-op. ValidateTool copies each log entry once and calls repair only with fix. All path trees exhausted, reachability twins witnessed.",
+   note="int()/float()/str.lower() of symbolic strings do not exhaust under CrossHair: numeric texts are pool-indexed and ENUM lists partly concrete (stated bounds). octave_write(lenient) and CLI --fix call the same repair().",
+   ref="DESIGN.md §4 C11"),
 }
 NOT_APPLICABLE = {
  "C06": "quantifies over interpreter configurations (PYTHONHASHSEED, locale, cwd, process boundaries, task interleavings); symbolic execution runs inside one configuration and cannot make these symbolic (DESIGN.md §4 C06)",
